@@ -1,0 +1,12 @@
+//go:build verif
+// +build verif
+
+package gofakes3
+
+import "io"
+
+// NewChunkedReaderForVerif exposes the aws-chunked decoder to the verification
+// harness in /verif (built only with -tags verif).
+func NewChunkedReaderForVerif(inner io.Reader) io.Reader {
+	return newChunkedReader(inner)
+}
